@@ -53,9 +53,28 @@ def base_ok(c, f, simplified=None):
     return True
 
 
+class SimplifyHang(Exception):
+    pass
+
+
 def lower(arr, simplified=False):
     e = arr.as_evaluable_array
-    return e.simplified if simplified else e
+    if not simplified:
+        return e
+    k, v = X.guarded(lambda: e.simplified, 20)
+    if k == 'ok':
+        return v
+    if k == 'hang' or 'caught in a loop' in str(v):
+        raise SimplifyHang('simplification of the lowered array does not terminate')
+    raise v
+
+
+def lowering_failure(c, e, sig, what, replay):
+    """lowering (+ simplification) of a manipulated array raised: the simplifier not terminating is the C01-family root cause"""
+    if isinstance(e, SimplifyHang):
+        c.failing_input('evaluation:simplification-does-not-terminate', str(e), replay)
+    else:
+        c.failing_input(sig + type(e).__name__, what % (type(e).__name__, str(e)[:160]), replay)
 
 
 def tolist(v):
@@ -119,9 +138,9 @@ def settle(c, stream, sym, conc, target_conc, confirm, sig, what, replay):
         return 'conc'
     bad, detail = confirm()
     if bad:
-        c.count(stream + ':violation')
         detail = dict(detail)
-        c.failing_input(detail.pop('signature', sig), what, dict(replay, **detail))
+        new = c.failing_input(detail.pop('signature', sig), what, dict(replay, **detail))
+        c.count(stream + (':violation' if new else ':known-finding'))
         return 'violation'
     if vc == 'differ' and not isinstance(conc, str) and target_conc is not None and keys_close(conc['result'], target_conc):
         c.count(stream + ':equal-within-float-rounding-at-sample-point')   # numerically evaluated coefficients (factor)
@@ -175,21 +194,25 @@ OUTSIDE_SIG = 'replace:integral-by-integral-outside:loop-id-collision'
 
 
 def outside_collision_minimal(function):
-    """recorded minimal input of the open finding: an integral whose (non-scalar) argument is replaced, from outside, by another
-    integral.  Specification: the value of f with u bound to the value of g.  True = still fails."""
+    """recorded minimal inputs of the open finding: an integral whose (non-scalar) argument is replaced, from outside, by another
+    integral — (a) over the same elements (wrong value at the time of recording), (b) over a different number of elements
+    (AssertionError in _make_loop_ids_unique).  Specification: the value of f with u bound to the value of g.  True = still fails."""
     from nutils import mesh
     topo, geom = mesh.rectilinear([3])
     basis = topo.basis('std', degree=1)
     J = function.J(geom)
     u = function.field('u', basis)
     f = topo.integral(u**2 * J, degree=2)
-    g = topo.integral(basis * geom[0] * J, degree=2)
-    kg, gv = feval(function, g, {})
-    kf, want = feval(function, f, dict(u=gv)) if kg == 'ok' else ('n/a', None)
-    if kf != 'ok':
-        raise Infra('C13: the components of the recorded input of %s do not evaluate' % OUTSIDE_SIG)
-    kr, got = X.guarded(lambda: numpy.asarray(function.eval(function.replace_arguments(f, {'u': g}))), 20)
-    return not (kr == 'ok' and X.arrays_close(got, want))
+    fails = False
+    for dom in (topo, topo[:2]):
+        g = dom.integral(basis * geom[0] * J, degree=2)
+        kg, gv = feval(function, g, {})
+        kf, want = feval(function, f, dict(u=gv)) if kg == 'ok' else ('n/a', None)
+        if kf != 'ok':
+            raise Infra('C13: the components of the recorded input of %s do not evaluate' % OUTSIDE_SIG)
+        kr, got = X.guarded(lambda: numpy.asarray(function.eval(function.replace_arguments(f, {'u': g}))), 20)
+        fails = fails or not (kr == 'ok' and X.arrays_close(got, want))
+    return fails
 
 
 # ------------------------------------------------------------------------------------------------ the check
@@ -210,7 +233,7 @@ def _run(c):
     c.assumptions += ['complex arguments are not generated', 'integer arguments and axis lengths are sampled, real arguments are symbolic',
                       'symbolic "same" relies on Props/Poly soundness of the polynomial normal form; the evaluator is executed, not kernel-reduced',
                       'a symbolic "differ"/"unsupported" is never a verdict: exact comparison at the sampled point, then confirmation on the real code',
-                      'lowered integrals are serialised after `.simplified` (TransformCoords/TransformIndex/TransformLinear are outside the engine): for those streams C01 (simplification preserves value) is assumed',
+                      'lowered integrals are serialised after `.simplified` (TransformCoords/TransformIndex/TransformLinear are outside the engine), and so are the trees of the many-axes stream (the unsimplified derivative of a factored form over a 24-entry argument has intermediates of 10^5..10^6 entries): for those streams C01 (simplification preserves value) is assumed',
                       'non-polynomial dependence on the differentiation argument: linearize/derivative are confirmed by central differences on the real code only (supporting evidence)']
     broken = c.build_and_audit()
     ok, out = c.build(['NutilsVerif.Model.C13Driver'])   # request handlers of Drivers/C13.lean, compiled once
@@ -297,10 +320,10 @@ def _run(c):
                 Rlast = wrap(Rlast); f = wrap(f)
             eR = lower(Rlast, simplified)
             eF = lower(f, simplified)
-            eG = [[lower(v) for v in st.values()] for st in stages]
+            eG = [[lower(v, simplified) for v in st.values()] for st in stages]
         except Exception as e:
             c.case(('replace-lower', tag, spec_repr(spec)))
-            c.failing_input('replace:lowering-raises:' + type(e).__name__, 'lowering of replace_arguments(f, …) raises %s: %s' % (type(e).__name__, str(e)[:160]), replay); return
+            lowering_failure(c, e, 'replace:lowering-raises:', 'lowering of replace_arguments(f, …) raises %s: %s', replay); return
         # true dependencies must be announced
         actual = {a.name: (tuple(int(n.__index__()) for n in a.shape), a.dtype) for a in eR.arguments}
         if any(n not in Rlast.arguments or tuple(Rlast.arguments[n][0]) != s or Rlast.arguments[n][1] != d for n, (s, d) in actual.items()):
@@ -406,7 +429,7 @@ def _run(c):
         agrees = min(errs) <= 1e-5 * scale or errs[-1] <= .25 * errs[0]
         return ('ok', bool(agrees), tolist(fds[-1]), tolist(lv), errs)
 
-    def linearize_case(f, gen, pool, tag='plain'):
+    def linearize_case(f, gen, pool, tag='plain', simplified=False):
         fkeys = [n for n, (s, d) in f.arguments.items() if d == float and n in pool]
         if not fkeys:
             c.count('linearize:no-real-argument'); return
@@ -471,20 +494,20 @@ def _run(c):
             c.failing_input('derivative:shape-or-arguments-wrong', 'derivative(f, u) has wrong shape or .arguments', dict(replay, shape=list(D.shape), announced=sig_of(D.arguments)))
         values = values_for(f, L, D, *dirs.values())
         try:
-            eF, eL, eD = lower(f), lower(L), lower(D)
+            eF, eL, eD = lower(f, simplified), lower(L, simplified), lower(D, simplified)
             roots = [eF, eL, eD]
             stage = {}; lpairs = {}
             for j, (k, v) in enumerate(dirs.items()):
                 if isinstance(dict(pairs)[k], str):
                     lpairs[k] = dict(pairs)[k]
                 else:
-                    nm = '#d%d' % j; stage[nm] = len(roots); roots.append(lower(v)); lpairs[k] = nm
+                    nm = '#d%d' % j; stage[nm] = len(roots); roots.append(lower(v, simplified)); lpairs[k] = nm
             reqs, s = expr_requests(roots, values, lins=[dict(root=0, pairs=lpairs, cmp=1, stages=[stage] if stage else [])],
                                     derivs=[dict(root=0, name=dk, cmp=2)])
         except ValueError:
             c.count('linearize:not-serialisable'); return
         except Exception as e:
-            c.failing_input('linearize:lowering-raises:' + type(e).__name__, 'lowering of linearize/derivative raises %s: %s' % (type(e).__name__, str(e)[:160]), replay); return
+            lowering_failure(c, e, 'linearize:lowering-raises:', 'lowering of linearize/derivative raises %s: %s', replay); return
         c.case(eL.__nutils_hash__, nontrivial=True)
         if len(c.samples) < 5: c.sample(dict(stream='linearize', f_arguments=sig_of(f.arguments), spec=spec_repr(spec)))
 
@@ -585,7 +608,10 @@ def _run(c):
         if Fa is not None:
             if dict(Fa.arguments) != dict(f.arguments) or tuple(Fa.shape) != tuple(f.shape):
                 c.failing_input('factor:announced-arguments-or-shape-wrong', 'factor(f) has wrong .arguments or shape', dict(replay, announced=sig_of(Fa.arguments)))
-            eFa = lower(Fa)
+            try:
+                eFa = lower(Fa, simplified)
+            except Exception as e:
+                lowering_failure(c, e, 'factor:lowering-raises:', 'lowering of factor(f) raises %s: %s', replay); return
             roots.append(eFa); extra['cmp'].append([0, 1])
             c.count('factor:degree-%d' % total)
             # derivative of the factored form (Monomial._derivative with its `powers` multiplicities)
@@ -599,11 +625,11 @@ def _run(c):
                 dirargs += [(v, f.arguments[k]) for k, v in P1.items()]
                 try:
                     LFa = function.linearize(Fa, dict(P1))
-                    roots.append(lower(LFa)); extra['lins'].append(dict(root=0, pairs=P1, cmp=len(roots) - 1))
+                    roots.append(lower(LFa, simplified)); extra['lins'].append(dict(root=0, pairs=P1, cmp=len(roots) - 1))
                 except NotImplementedError:
                     c.count('factor:derivative-not-implemented'); LFa = None
                 except Exception as e:
-                    c.failing_input('factor:derivative-raises:' + type(e).__name__, 'linearize(factor(f)) raises %s: %s' % (type(e).__name__, str(e)[:100]), replay); LFa = None
+                    lowering_failure(c, e, 'factor:derivative-raises:', 'linearize(factor(f)) raises %s: %s', replay); LFa = None
                 if LFa is not None and second:
                     # (i) second derivative: linearize(f) is certified against the formal derivative of f, the second linearization of
                     #     the factored form against the formal derivative of that certified tree
@@ -612,14 +638,14 @@ def _run(c):
                         L1f = function.linearize(f, dict(P1))
                         L2f = function.linearize(L1f, {k2: '#w'})
                         L2Fa = function.linearize(LFa, {k2: '#w'})
-                        i1 = len(roots); roots.append(lower(L1f)); roots.append(lower(L2Fa))
+                        i1 = len(roots); roots.append(lower(L1f, simplified)); roots.append(lower(L2Fa, simplified))
                         dirargs.append(('#w', f.arguments[k2]))
                         extra['lins'].append(dict(root=0, pairs=P1, cmp=i1))
                         extra['lins'].append(dict(root=i1, pairs={k2: '#w'}, cmp=i1 + 1))
                         more.append(('factor-second-derivative', len(extra['lins']) - 1, i1 + 1, L2Fa, L2f, ('lins', len(extra['lins']) - 2)))
                         c.count('factor:second-derivative')
                     except Exception as e:
-                        c.failing_input('factor:second-derivative-raises:' + type(e).__name__, 'the second derivative of factor(f) raises %s: %s' % (type(e).__name__, str(e)[:100]), replay)
+                        lowering_failure(c, e, 'factor:second-derivative-raises:', 'the second derivative of factor(f) raises %s: %s', replay)
                     # (ii) replace an argument of the factored form by an expression and differentiate through it (chain rule in
                     #      Monomial._derivative): replace(f, k:g) is certified against f∘g, the derivative against that tree
                     if gen is not None:
@@ -635,7 +661,7 @@ def _run(c):
                             PR = {k_: '#r' + k_ for k_ in tkeys[:2]}
                             try:
                                 LRf = function.linearize(Rf, dict(PR)); LRFa = function.linearize(RFa, dict(PR))
-                                ig = len(roots); roots += [lower(g_), lower(Rf), lower(LRFa)]
+                                ig = len(roots); roots += [lower(g_, simplified), lower(Rf, simplified), lower(LRFa, simplified)]
                                 dirargs += [(v_, Rf.arguments[k_]) for k_, v_ in PR.items()]
                                 more_arrays.append(g_)
                                 extra['binds'].append(dict(stages=[{kr: ig}], root=0, cmp=ig + 1))
@@ -643,7 +669,7 @@ def _run(c):
                                 more.append(('factor-replace-derivative', len(extra['lins']) - 1, ig + 2, LRFa, LRf, ('binds', len(extra['binds']) - 1)))
                                 c.count('factor:replace-then-derivative')
                             except Exception as e:
-                                c.failing_input('factor:replace-derivative-raises:' + type(e).__name__, 'linearize(replace(factor(f), …)) raises %s: %s' % (type(e).__name__, str(e)[:100]), replay)
+                                lowering_failure(c, e, 'factor:replace-derivative-raises:', 'linearize(replace(factor(f), …)) raises %s: %s', replay)
         else:
             c.count('factor:skipped-' + ('int-arguments' if not allow_factor else 'nonpolynomial' if not polyn else 'degree>%d' % (4 if quick else 5) if total > (4 if quick else 5) else 'raised'))
         # zero_all_arguments vs binding every argument to zeros
@@ -751,7 +777,7 @@ def _run(c):
     # =============================================================================== stream 3c: arguments with 3 or 4 axes (V)
     # the same three claims (replace, linearize / derivative, factor and its first / second derivative and derivative through a
     # replacement) over a per-case pool whose arguments have 3-4 axes of (mostly) pairwise different lengths
-    N3c = 24 if quick else 600
+    N3c = 24 if quick else 320
     for i in range(N3c):
         pool, S = G.nd_pool(rng)
         gen = G.FGen(rng, poly=True, pool=pool, ints=False)
@@ -767,16 +793,16 @@ def _run(c):
         c.count('nd:' + which)
         if which == 'factor':
             if not base_ok(c, f): continue
-            factor_case(f, 'nd', False, dict(stream='factor', tag='nd', f=describe(function, f), f_arguments=sig_of(f.arguments)), gen=gen, second=True)
+            factor_case(f, 'nd', True, dict(stream='factor', tag='nd', f=describe(function, f), f_arguments=sig_of(f.arguments)), gen=gen, second=True)
         elif which == 'linearize':
-            linearize_case(f, gen, pool, tag='nd')
+            linearize_case(f, gen, pool, tag='nd', simplified=True)
         else:
             if not base_ok(c, f): continue
-            replace_case(f, pool, gen, 'nd', nested=rng.random() < .3)
+            replace_case(f, pool, gen, 'nd', simplified=True, nested=rng.random() < .3)
 
     c.log('stream many-axes generated')
     # =============================================================================== stream 3d: nested replacements in / around integrals (V)
-    nested_stream(c, batch, function, G, rng, topos, 16 if quick else 300, speceval)
+    nested_stream(c, batch, function, G, rng, topos, 16 if quick else 160, speceval)
 
     c.log('stream nested generated')
     # =============================================================================== stream 4: spellings (M + oracle)
@@ -802,9 +828,12 @@ def _run(c):
     for stream in ('replace', 'linearize', 'derivative', 'factor', 'factor-derivative', 'zero_all_arguments', 'factor-second-derivative', 'factor-replace-derivative',
                    'nested-replace', 'nested-linearize'):
         ns = c.counters.get(stream + ':proved-symbolically-for-all-real-arguments', 0); nc = c.counters.get(stream + ':equal-exactly-at-sample-point', 0)
-        nr = c.counters.get(stream + ':equal-within-float-rounding-at-sample-point', 0) if stream.startswith('nested') else 0   # Gauss points: rounded coefficients
-        c.obligation('valid:' + stream, c.counters.get(stream + ':violation', 0) == 0 and ns + nc + nr > 0, 'validation',
-                     '%d symbolic + %d at sample point' % (ns, nc) + (' + %d within float rounding' % nr if nr else ''))
+        if stream.startswith('nested'):
+            # decided by the staged evaluation of the components on the real code in every case; Lean decides the cases whose lowered trees are free of Transform* / ArrayFromTuple nodes
+            nreal = c.counters.get(stream + ':agrees-with-staged-real-evaluation', 0)
+            c.obligation('valid:' + stream, c.counters.get(stream + ':violation', 0) == 0 and nreal > 0, 'validation', '%d agree with the staged evaluation on the real code; of these Lean: %d symbolic + %d at sample point' % (nreal, ns, nc))
+            continue
+        c.obligation('valid:' + stream, c.counters.get(stream + ':violation', 0) == 0 and ns + nc > 0, 'validation', '%d symbolic + %d at sample point' % (ns, nc))
     c.extra['proved_symbolically_for_all_real_arguments'] = sum(v for k, v in c.counters.items() if k.endswith(':proved-symbolically-for-all-real-arguments'))
     c.obligation('oracle:no-failing-input', not any(v[2] and not v[2].startswith('broken:') for v in c.violations), 'validation', 'no stream reported a failing input of the real code')
     for b in broken:
@@ -1008,7 +1037,7 @@ def nested_stream(c, batch, function, G, rng, topos, N, speceval):
         tname, topo, geom = topos[i % len(topos)]
         depth = rng.choice([2, 3, 3, 3, 4])
         try:
-            top, free = G.nested_case(rng, tname, topo, geom, depth)
+            top, free = G.nested_case(rng, tname, topo, geom, depth, friendly=rng.random() < .6)
             nodes = list(top.nodes_postorder())
             comps = {nd.ident: nd.component() for nd in nodes}
             R = top.build(rng)
@@ -1063,6 +1092,7 @@ def nested_stream(c, batch, function, G, rng, topos, N, speceval):
         kr, got = feval(function, R, values, timeout=30)
         real_bad = kr != 'ok' or not X.arrays_close(got, wantv, rtol=1e-9, atol=1e-11)
         what = 'a nested replacement (replacement values that are integrals containing replacements, %d element loops deep) does not evaluate to the integrand with the replaced arguments bound to the values of their replacements' % chain
+        if not real_bad: c.count('nested-replace:agrees-with-staged-real-evaluation')
         if real_bad:
             d = attribute(kr, got)
             c.count('nested-replace:violation' if d['signature'] != OUTSIDE_SIG else 'nested-replace:known-finding')
@@ -1103,13 +1133,13 @@ def nested_stream(c, batch, function, G, rng, topos, N, speceval):
             d = json.loads(l); d['op'] = 'expr'; d.update(extra); reqs.append(d)
 
         li = len(roots) - 1
-        def handler(a_sym, a_conc, R=R, L=L, P=P, got=got, allv=allv, values=values, dvals=dvals, replay=replay, staged=staged, what=what, li=li):
+        def handler(a_sym, a_conc, R=R, L=L, P=P, got=got, allv=allv, values=values, dvals=dvals, replay=replay, staged=staged, what=what, li=li, top=top, risky=risky):
             out = settle(c, 'nested-replace', a_sym['binds'][0], a_conc['binds'][0], a_conc['results'][1], lambda: (False, {}), 'replace:nested:value-differs', what, replay)
             spec_eval(c, speceval, a_conc['results'][1], got, 'nested replacement', replay)
             if L is None: return
-            def confirm_lin():
-                kl, lv = feval(function, L, allv, timeout=30)
-                if kl != 'ok': return True, dict(eval_failure(L, kl, lv), signature='linearize:nested:evaluation-raises')
+            def confirm_one(L_):
+                kl, lv = feval(function, L_, allv, timeout=30)
+                if kl != 'ok': return True, dict(eval_failure(L_, kl, lv), signature='linearize:nested:evaluation-raises')
                 errs = []; fd = None
                 for h in (2.**-6, 2.**-9, 2.**-12):
                     plus = dict(values); minus = dict(values)
@@ -1122,11 +1152,24 @@ def nested_stream(c, batch, function, G, rng, topos, N, speceval):
                 scale = max(1., float(numpy.abs(fd).max(initial=0.)), float(numpy.abs(lv).max(initial=0.)))
                 agrees = min(errs) <= 1e-6 * scale or errs[-1] <= .25 * errs[0]
                 return (not agrees), dict(finite_difference_of_the_staged_evaluation=tolist(fd), real_result=tolist(lv), errors_for_decreasing_h=errs, arguments={k: tolist(v) for k, v in allv.items()})
+            ran = {}
+            def confirm_lin():
+                bad, detail = confirm_one(L)
+                ran['compared'] = 'errors_for_decreasing_h' in detail
+                if bad and risky:
+                    # root cause as for the value: the open finding iff the all-inside variant of the construction linearizes correctly
+                    kv, Lv = X.guarded(lambda: function.linearize(top.build(rng, force_inside=True), dict(P)), 30)
+                    if kv == 'ok' and not confirm_one(Lv)[0]:
+                        c.count('nested:outside-by-integral:collision(known-finding)')
+                        detail = dict(detail, signature=OUTSIDE_SIG)
+                return bad, detail
             certified = lambda a: a['binds'][0]['verdict'] == 'same'
             rel = lambda a: a['lins'][0] if certified(a) else dict(a['lins'][0], verdict='differ' if a['lins'][0]['verdict'] == 'same' else a['lins'][0]['verdict'])
             # the formal derivative is taken of the real nested tree, which the first claim certifies; otherwise finite differences of the staged evaluation decide
-            settle(c, 'nested-linearize', rel(a_sym), rel(a_conc), a_conc['results'][li], confirm_lin, 'linearize:nested:value-differs',
-                   'linearize of a nested replacement is not the directional derivative of the staged evaluation', replay)
+            r = settle(c, 'nested-linearize', rel(a_sym), rel(a_conc), a_conc['results'][li], confirm_lin, 'linearize:nested:value-differs',
+                       'linearize of a nested replacement is not the directional derivative of the staged evaluation', replay)
+            if r in ('sym', 'conc') or (r != 'violation' and ran.get('compared')):
+                c.count('nested-linearize:agrees-with-staged-real-evaluation')
         batch.add(reqs, handler)
 
 
